@@ -203,4 +203,16 @@ mod verif_app_wit {
         }
         assert!(responses.iter().any(|r| r["request"]["id"] == 100 && r.get("error").is_none()), "the ordinary query is served");
     }
+
+    /// C12: a query of the wrong JSON type (no input plugin configured) is answered with an error response that ECHOES it
+    #[test]
+    fn c12_wit_wrong_type_query_is_echoed() {
+        let app = load_app();
+        for bad in [json!(7), json!("text"), json!(null), json!(true)] {
+            let responses = app.run(vec![bad.clone(), json!({"id": 1, "origin_vertex": 0, "destination_vertex": 2})], None).expect("user-level errors are responses, not a failed run");
+            assert_eq!(responses.len(), 2, "one response per query");
+            let r = responses.iter().find(|r| r.get("error").is_some()).expect("the wrong-type query is an error response");
+            assert_eq!(r.get("request"), Some(&bad), "the error response echoes the request it answers, found {}", r);
+        }
+    }
 }
